@@ -31,6 +31,7 @@ type frame struct {
 	parent  *frame
 	loopDefers bool
 	activeAtCall []string
+	keepActiveAtCall bool
 }
 
 type retRec struct {
